@@ -1349,12 +1349,12 @@ pub fn c12(cx: &mut Ctx) -> VResult {
         // keep the enumeration affordable: long scripts are sampled at a stride below
     }
     let knobs = gen_knobs(cx, false, plan.wire.len());
+    let rkind = match cx.ch.pick(4) { 0 => io::ErrorKind::ConnectionReset, 1 => io::ErrorKind::Interrupted, 2 => io::ErrorKind::TimedOut, _ => io::ErrorKind::Other };
     // fault-free reference run, recording the choice list of the run itself
     let start = cx.ch.log.len();
     let inner = take_cx(cx);
     let hmode = if cx.ch.chance(1, 4) { HandlerMode::Readers } else { HandlerMode::Seq };
     let copts = |rf, wf| ConnOpts { mode: hmode, rfault: rf, wfault: wf, shutdown: None, strict_no_spurious: true };
-    let rkind = match cx.ch.pick(4) { 0 => io::ErrorKind::ConnectionReset, 1 => io::ErrorKind::Interrupted, 2 => io::ErrorKind::TimedOut, _ => io::ErrorKind::Other };
     let mut out = run_conn_with(inner, &plan, knobs, &copts(RFault::None, WFault::None), |w| w.force_propagate = true);
     give_back(cx, &mut out);
     handler_violations(&out)?;
